@@ -1,13 +1,291 @@
-/- Driver for the query engine (ops whose name starts with `q`). -/
+/- Driver for the query engine (ops whose name starts with `q`).
+
+Single query (driven with explicit time):
+  qnew V PAR NR PTO TARGET INIT      V = f (FindNodeQuery) | p (PredicateQuery); INIT = `id:flag,…` | `-`
+  qnext NOW                           → wait:<id> | wait:- | cap | fin
+  qok REF CLOSER / qfail REF          REF = @k (k-th outstanding request) | %k (k-th request ever
+                                      emitted) | <64 hex>;  CLOSER = `id:flag,…` | `-`
+  qpeek                               into_result of a clone (closest variant only)
+  qdrive NOW CAP                      answer everything until `next` says Finished
+  qres                                into_result (consumes the query)
+Pool (real time on the implementation side; NOW is model time only):
+  qpnew TIMEOUT / qpadd V PAR NR PTO TARGET INIT / qpok ID REF CLOSER / qpfail ID REF /
+  qppoll NOW CAP                      poll until Idle / Waiting(None); events grouped by query id
+-/
 import Driver.Common
+import Discv5Model.Model.Query
 namespace Discv5.Driver
+open Discv5.Query
+
+/-- Ledger of one query kept by the driver: requests in emission order. -/
+structure QLed where
+  outstanding : List Nat := []
+  emitted : List Nat := []
+  deriving Inhabited
 
 structure QuerySt where
-  dummy : Unit := ()
+  q : Option Q := none
+  led : QLed := {}
+  lastNow : Nat := 0
+  pool : Option Pool := none
+  pleds : List (Nat × QLed) := []
+
+def idHex (n : Nat) : String := toHex (beBytes 32 n)
+
+def parseId (s : String) : Option Nat :=
+  if s.length != 64 then none else (ofHex s).map beNat
+
+def parseFlag (s : String) : Option Bool :=
+  if s == "1" then some true else if s == "0" then some false else none
+
+def parsePairs (s : String) : Option (List (Nat × Bool)) :=
+  if s == "-" then some []
+  else (s.splitOn ",").mapM fun item =>
+    match fields item with
+    | [i, f] => do
+      let i ← parseId i
+      let f ← parseFlag f
+      pure (i, f)
+    | _ => none
+
+def parseVariant (s : String) : Option Variant :=
+  if s == "f" then some .closest else if s == "p" then some .predicate else none
+
+def num? (s : String) : Option Nat := if s.isEmpty then none else s.toNat?
+
+def showIds (l : List Nat) : String :=
+  if l.isEmpty then "-" else ",".intercalate (l.map idHex)
+
+def showPState : PState → String
+  | .notContacted => "N"
+  | .waiting _ => "W"
+  | .unresponsive => "U"
+  | .failed => "F"
+  | .succeeded => "S"
+
+def showProgress : Progress → String
+  | .iterating n => s!"I{n}"
+  | .stalled => "S"
+  | .finished => "F"
+
+/-- Internal state, shown only for the closest variant (the implementation exposes it through
+`Debug`; `PredicateQuery` has no such window). -/
+def suffix (q : Q) : String :=
+  match q.variant with
+  | .predicate => "-"
+  | .closest =>
+    let st := if q.peers.isEmpty then "-"
+      else ",".intercalate (q.peers.map fun p => s!"{showPState p.state}{p.returned}")
+    s!"nw={q.numWaiting} prog={showProgress q.progress} st={st}"
+
+def showQState : QState → String
+  | .waiting (some k) => s!"wait:{idHex k}"
+  | .waiting none => "wait:-"
+  | .waitingAtCapacity => "cap"
+  | .finished => "fin"
+
+inductive Ref where
+  | peer (k : Nat)
+  | none
+  | bad
+
+def resolveRef (led : QLed) (s : String) : Ref :=
+  if s.startsWith "@" then
+    match num? (s.drop 1).toString with
+    | some k => if led.outstanding.isEmpty then .none else .peer (led.outstanding.getD (k % led.outstanding.length) 0)
+    | none => .bad
+  else if s.startsWith "%" then
+    match num? (s.drop 1).toString with
+    | some k => if led.emitted.isEmpty then .none else .peer (led.emitted.getD (k % led.emitted.length) 0)
+    | none => .bad
+  else
+    match parseId s with
+    | some k => .peer k
+    | none => .bad
+
+def QLed.emit (l : QLed) (k : Nat) : QLed :=
+  { outstanding := l.outstanding ++ [k], emitted := l.emitted ++ [k] }
+
+def QLed.terminal (l : QLed) (k : Nat) : QLed :=
+  { l with outstanding := l.outstanding.filter (· != k) }
+
+/-- `qdrive`: answer every request at once (alternating success without peers / failure); when
+`next` hands out nothing, fail everything still outstanding and let the peer timeout pass. -/
+def drive : Nat → Q → QLed → Nat → Nat → Q × QLed × Nat × Nat × Bool
+  | 0, q, led, now, n => (q, led, now, n, false)
+  | fuel + 1, q, led, now, n =>
+    let r := next q now
+    match r.2 with
+    | .finished => (r.1, led, now, n, true)
+    | .waiting (some k) =>
+      let led := (led.emit k).terminal k
+      let q' := if n % 2 == 0 then onSuccess r.1 k [] else onFailure r.1 k
+      drive fuel q' led now (n + 1)
+    | _ =>
+      let q' := led.outstanding.foldl (fun q o => onFailure q o) r.1
+      drive fuel q' { led with outstanding := [] } (now + q.cfg.peerTimeout + 1) n
+
+def getLed (pl : List (Nat × QLed)) (id : Nat) : Option QLed := (pl.find? (·.1 == id)).map (·.2)
+
+def setLed (pl : List (Nat × QLed)) (id : Nat) (l : QLed) : List (Nat × QLed) :=
+  (id, l) :: pl.filter (·.1 != id)
+
+/-- Event log of a drain: (id, emitted peers, final result: F/T + ids). -/
+structure PLog where
+  id : Nat
+  emits : List Nat := []
+  fin : Option (String × List Nat) := none
+
+def logEmit (lg : List PLog) (id k : Nat) : List PLog :=
+  if lg.any (·.id == id) then lg.map fun e => if e.id == id then { e with emits := e.emits ++ [k] } else e
+  else lg ++ [{ id := id, emits := [k] }]
+
+def logFin (lg : List PLog) (id : Nat) (tag : String) (res : List Nat) : List PLog :=
+  if lg.any (·.id == id) then lg.map fun e => if e.id == id then { e with fin := some (tag, res) } else e
+  else lg ++ [{ id := id, fin := some (tag, res) }]
+
+def insertSorted (x : Nat) : List Nat → List Nat
+  | [] => [x]
+  | y :: ys => if x ≤ y then x :: y :: ys else y :: insertSorted x ys
+
+def sortNat (l : List Nat) : List Nat := l.foldl (fun acc x => insertSorted x acc) []
+
+def drain : Nat → Pool → List (Nat × QLed) → Nat → List PLog → Pool × List (Nat × QLed) × List PLog × String
+  | 0, p, pl, _, lg => (p, pl, lg, "cap")
+  | fuel + 1, p, pl, now, lg =>
+    let r := p.poll now (sortNat (p.queries.map (·.id)))
+    match r.2 with
+    | .idle => (r.1, pl, lg, "idle")
+    | .waitingNone => (r.1, pl, lg, "wait")
+    | .waitingSome i k =>
+      let l := (getLed pl i).getD {}
+      drain fuel r.1 (setLed pl i (l.emit k)) now (logEmit lg i k)
+    | .finished i q => drain fuel r.1 pl now (logFin lg i "F" (intoResult q))
+    | .timeout i q => drain fuel r.1 pl now (logFin lg i "T" (intoResult q))
+
+def showLog (lg : List PLog) : String :=
+  let ids := sortNat (lg.map (·.id))
+  let parts := ids.filterMap fun i =>
+    (lg.find? (·.id == i)).map fun e =>
+      let a := if e.emits.isEmpty then "" else s!"/e:{showIds e.emits}"
+      let b := match e.fin with
+        | some (t, r) => s!"/{t}:{showIds r}"
+        | none => ""
+      s!"{i}{a}{b}"
+  " ".intercalate parts
 
 /-- One op of the query engine: full token list (op name first) → new state and reply line. -/
 def queryStep (st : QuerySt) (toks : List String) : QuerySt × String :=
   match toks with
+  | ["qnew", v, par, nr, pto, target, init] =>
+    match parseVariant v, num? par, num? nr, num? pto, parseId target, parsePairs init with
+    | some v, some par, some nr, some pto, some t, some init =>
+      let q := withConfig v ⟨par, nr, pto⟩ t init
+      ({ st with q := some q, led := {}, lastNow := 0 }, s!"ok {suffix q}")
+    | _, _, _, _, _, _ => (st, "bad-op")
+  | ["qnext", now] =>
+    match st.q, num? now with
+    | some q, some now =>
+      if now < st.lastNow then (st, "bad-op")
+      else
+        let r := next q now
+        let led := match r.2 with
+          | .waiting (some k) => st.led.emit k
+          | _ => st.led
+        ({ st with q := some r.1, led := led, lastNow := now }, s!"{showQState r.2} {suffix r.1}")
+    | none, some _ => (st, "none")
+    | _, _ => (st, "bad-op")
+  | ["qok", ref, closer] =>
+    match st.q, parsePairs closer with
+    | some q, some closer =>
+      match resolveRef st.led ref with
+      | .bad => (st, "bad-op")
+      | .none => (st, "none")
+      | .peer k =>
+        let q' := onSuccess q k closer
+        ({ st with q := some q', led := st.led.terminal k }, s!"ok {idHex k} {suffix q'}")
+    | none, some _ => (st, "none")
+    | _, _ => (st, "bad-op")
+  | ["qfail", ref] =>
+    match st.q with
+    | some q =>
+      match resolveRef st.led ref with
+      | .bad => (st, "bad-op")
+      | .none => (st, "none")
+      | .peer k =>
+        let q' := onFailure q k
+        ({ st with q := some q', led := st.led.terminal k }, s!"ok {idHex k} {suffix q'}")
+    | none => (st, "none")
+  | ["qpeek"] =>
+    match st.q with
+    | some q =>
+      match q.variant with
+      | .closest => (st, s!"res {showIds (intoResult q)}")
+      | .predicate => (st, "na")
+    | none => (st, "none")
+  | ["qdrive", now, cap] =>
+    match st.q, num? now, num? cap with
+    | some q, some now, some cap =>
+      if now < st.lastNow then (st, "bad-op")
+      else
+        let (q', led, now', n, fin) := drive cap q st.led now 0
+        ({ st with q := some q', led := led, lastNow := now' },
+         s!"drv {n} {if fin then "fin" else "stuck"} {suffix q'}")
+    | none, some _, some _ => (st, "none")
+    | _, _, _ => (st, "bad-op")
+  | ["qres"] =>
+    match st.q with
+    | some q => ({ st with q := none }, s!"res {showIds (intoResult q)}")
+    | none => (st, "none")
+  | ["qpnew", tmo] =>
+    match num? tmo with
+    | some tmo => ({ st with pool := some (Pool.new tmo), pleds := [] }, "ok")
+    | none => (st, "bad-op")
+  | ["qpadd", v, par, nr, pto, target, init] =>
+    match st.pool, parseVariant v, num? par, num? nr, num? pto, parseId target, parsePairs init with
+    | some p, some v, some par, some nr, some pto, some t, some init =>
+      let r := p.add (withConfig v ⟨par, nr, pto⟩ t init)
+      ({ st with pool := some r.1, pleds := setLed st.pleds r.2 {} }, s!"id {r.2}")
+    | none, some _, some _, some _, some _, some _, some _ => (st, "none")
+    | _, _, _, _, _, _, _ => (st, "bad-op")
+  | ["qpok", id, ref, closer] =>
+    match st.pool, num? id, parsePairs closer with
+    | some p, some id, some closer =>
+      match getLed st.pleds id with
+      | none => (st, "gone")
+      | some l =>
+        match resolveRef l ref with
+        | .bad => (st, "bad-op")
+        | .none => (st, "none")
+        | .peer k =>
+          let reached := (p.get id).isSome
+          ({ st with pool := some (p.onSuccess id k closer), pleds := setLed st.pleds id (l.terminal k) },
+           s!"{if reached then "ok" else "gone"} {idHex k}")
+    | none, some _, some _ => (st, "none")
+    | _, _, _ => (st, "bad-op")
+  | ["qpfail", id, ref] =>
+    match st.pool, num? id with
+    | some p, some id =>
+      match getLed st.pleds id with
+      | none => (st, "gone")
+      | some l =>
+        match resolveRef l ref with
+        | .bad => (st, "bad-op")
+        | .none => (st, "none")
+        | .peer k =>
+          let reached := (p.get id).isSome
+          ({ st with pool := some (p.onFailure id k), pleds := setLed st.pleds id (l.terminal k) },
+           s!"{if reached then "ok" else "gone"} {idHex k}")
+    | none, some _ => (st, "none")
+    | _, _ => (st, "bad-op")
+  | ["qppoll", now, cap] =>
+    match st.pool, num? now, num? cap with
+    | some p, some now, some cap =>
+      let (p', pl, lg, fin) := drain cap p st.pleds now []
+      let body := showLog lg
+      ({ st with pool := some p', pleds := pl }, if body.isEmpty then s!"poll {fin}" else s!"poll {body} {fin}")
+    | none, some _, some _ => (st, "none")
+    | _, _, _ => (st, "bad-op")
   | _ => (st, "bad-op")
 
 end Discv5.Driver
